@@ -551,14 +551,29 @@ pub async fn run_op(mut h: ContextHandle, spec: OpSpec) -> OpOut {
 // ---------------------------------------------------------------------------------
 // summaries of everything readable through public accessors
 
+thread_local! {
+    /// inconsistencies between the UserProperties accessors, noticed while summarising
+    pub static ACCESSOR_ISSUES: std::cell::RefCell<Vec<String>> = const { std::cell::RefCell::new(Vec::new()) };
+}
+
+pub fn take_accessor_issues() -> Vec<String> {
+    ACCESSOR_ISSUES.with(|a| std::mem::take(&mut *a.borrow_mut()))
+}
+
+/// Reads the user properties through `iter()` and cross-checks every other accessor
+/// (`len`, `is_empty`, `keys`, `values`, `get`, `contains_key`) against it.
 pub fn up_of(u: &UserProperties) -> UserProps {
-    u.iter().map(|(k, v)| (k.to_string(), v.to_string())).collect()
+    let got: UserProps = u.iter().map(|(k, v)| (k.to_string(), v.to_string())).collect();
+    if let Some(issue) = up_consistency(u, &got) {
+        ACCESSOR_ISSUES.with(|a| a.borrow_mut().push(issue));
+    }
+    got
 }
 
 /// Cross-check the UserProperties accessors against each other; returns a description
 /// of the first inconsistency.
 pub fn up_consistency(u: &UserProperties, want: &UserProps) -> Option<String> {
-    let got = up_of(u);
+    let got: UserProps = u.iter().map(|(k, v)| (k.to_string(), v.to_string())).collect();
     if &got != want {
         return Some(format!("user properties iter() = {got:?}, want {want:?}"));
     }
